@@ -24,6 +24,7 @@ TRANSLATORS = [
     ('gen_options', ['OptTab.v']),
     ('gen_callgraph', ['CallGraph.v']),
     ('gen_lexpins', ['LexPins.v']),
+    ('gen_passes', ['PassTab.v']),
 ]
 
 
